@@ -1150,6 +1150,14 @@ def _mkbytes(items):
     return bytes(items)
 
 
+class _Buffer:
+    def __init__(self, n):
+        self.nbytes = n
+
+    def __len__(self):
+        return self.nbytes
+
+
 class SymStream:
     """Seekable binary stream over symbolic content; logs every operation."""
 
@@ -1158,6 +1166,13 @@ class SymStream:
         self.pos = pos
         self.log = []
         self.closed = False
+
+    @property
+    def __class__(self):
+        return _io.BytesIO      # code that special-cases io.BytesIO takes the same branch as on the real object
+
+    def getbuffer(self):
+        return _Buffer(_real_len(self.data))
 
     def _n(self, n):
         if _real_type(n) in (SInt, SInst):
